@@ -82,10 +82,11 @@ def CallKind.labels : CallKind → Nat
 
 theorem callSeq_inv (kind : CallKind) (nargs ncalls : Nat) (actuals : M Code) (load : Nat → Nat → M Code)
     (gs gs' : GS) (code : Code) (h : callSeq kind nargs ncalls actuals load gs = .ok (code, gs')) :
-    ∃ c1 gs1 c2 gs2, actuals gs = .ok (c1, gs1) ∧
+    ∃ c1 gs1 c2 gs2, actuals { gs with size := gs.offset } = .ok (c1, gs1) ∧
       load kind.paramOffset gs.offset (bumpN ncalls { gs1 with offset := gs.offset }) = .ok (c2, gs2) ∧
       code = c1 ++ c2 ++ callTail kind gs2.labelCount ∧
-      gs' = { gs2 with offset := gs.offset, size := max gs2.size (gs2.offset + (nargs + kind.paramOffset)),
+      gs' = { gs2 with offset := gs.offset,
+                       size := max (max gs.size gs2.size) (gs2.size + (nargs + kind.paramOffset)),
                        labelCount := gs2.labelCount + kind.labels } := by
   unfold callSeq at h
   obtain ⟨stackOffset, g0, h0, h⟩ := bind_ok _ _ _ _ h
@@ -93,6 +94,16 @@ theorem callSeq_inv (kind : CallKind) (nargs ncalls : Nat) (actuals : M Code) (l
     Except.bind, Except.ok.injEq, Prod.mk.injEq] at h0
   obtain ⟨hso, hg0⟩ := h0
   subst hso; subst hg0
+  obtain ⟨frameSize, g0, h0, h⟩ := bind_ok _ _ _ _ h
+  simp only [getSize, bind, StateT.bind, get, getThe, MonadStateOf.get, StateT.get, pure, StateT.pure, Except.pure,
+    Except.bind, Except.ok.injEq, Prod.mk.injEq] at h0
+  obtain ⟨hfs, hg0⟩ := h0
+  subst hfs; subst hg0
+  obtain ⟨_, g1, h1, h⟩ := bind_ok _ _ _ _ h
+  simp only [setSize, modify, modifyGet, MonadStateOf.modifyGet, StateT.modifyGet, pure, Except.pure,
+    Except.ok.injEq, Prod.mk.injEq] at h1
+  obtain ⟨_, hg1⟩ := h1
+  subst hg1
   obtain ⟨c1, gs1, ha, h⟩ := bind_ok _ _ _ _ h
   obtain ⟨_, g2, h2, h⟩ := bind_ok _ _ _ _ h
   simp only [setOffset, modify, modifyGet, MonadStateOf.modifyGet, StateT.modifyGet, pure, Except.pure,
@@ -111,39 +122,54 @@ theorem callSeq_inv (kind : CallKind) (nargs ncalls : Nat) (actuals : M Code) (l
   subst hg4
   obtain ⟨c2, gs2, hl, h⟩ := bind_ok _ _ _ _ h
   refine ⟨c1, gs1, c2, gs2, ha, hl, ?_⟩
-  obtain ⟨_, g5, h5, h⟩ := bind_ok _ _ _ _ h
-  simp only [incOffset, modify, modifyGet, MonadStateOf.modifyGet, StateT.modifyGet, pure, Except.pure,
-    Except.ok.injEq, Prod.mk.injEq] at h5
-  obtain ⟨_, hg5⟩ := h5
-  subst hg5
-  obtain ⟨c3, g6, h6, h⟩ := bind_ok _ _ _ _ h
+  obtain ⟨deepest, g5, h5, h⟩ := bind_ok _ _ _ _ h
+  simp only [getSize, bind, StateT.bind, get, getThe, MonadStateOf.get, StateT.get, pure, StateT.pure, Except.pure,
+    Except.bind, Except.ok.injEq, Prod.mk.injEq] at h5
+  obtain ⟨hd, hg5⟩ := h5
+  subst hd; subst hg5
+  obtain ⟨_, g6, h6, h⟩ := bind_ok _ _ _ _ h
+  simp only [setSize, modify, modifyGet, MonadStateOf.modifyGet, StateT.modifyGet, pure, Except.pure,
+    Except.ok.injEq, Prod.mk.injEq] at h6
+  obtain ⟨_, hg6⟩ := h6
+  subst hg6
   obtain ⟨_, g7, h7, h⟩ := bind_ok _ _ _ _ h
   simp only [setOffset, modify, modifyGet, MonadStateOf.modifyGet, StateT.modifyGet, pure, Except.pure,
     Except.ok.injEq, Prod.mk.injEq] at h7
   obtain ⟨_, hg7⟩ := h7
   subst hg7
+  obtain ⟨_, g8, h8, h⟩ := bind_ok _ _ _ _ h
+  simp only [incOffset, modify, modifyGet, MonadStateOf.modifyGet, StateT.modifyGet, pure, Except.pure,
+    Except.ok.injEq, Prod.mk.injEq] at h8
+  obtain ⟨_, hg8⟩ := h8
+  subst hg8
+  obtain ⟨c3, g9, h9, h⟩ := bind_ok _ _ _ _ h
+  obtain ⟨_, g10, h10, h⟩ := bind_ok _ _ _ _ h
+  simp only [setOffset, modify, modifyGet, MonadStateOf.modifyGet, StateT.modifyGet, pure, Except.pure,
+    Except.ok.injEq, Prod.mk.injEq] at h10
+  obtain ⟨_, hg10⟩ := h10
+  subst hg10
   simp only [pure, StateT.pure, Except.pure, Except.ok.injEq, Prod.mk.injEq] at h
   obtain ⟨hc, hg⟩ := h
   subst hc; subst hg
   cases kind with
   | sys id =>
-    simp only [callTailM, pure, StateT.pure, Except.pure, Except.ok.injEq, Prod.mk.injEq] at h6
-    obtain ⟨hc3, hg6⟩ := h6
-    subst hc3; subst hg6
+    simp only [callTailM, pure, StateT.pure, Except.pure, Except.ok.injEq, Prod.mk.injEq] at h9
+    obtain ⟨hc3, hg9⟩ := h9
+    subst hc3; subst hg9
     exact ⟨rfl, by simp [CallKind.labels]⟩
   | func name =>
-    simp only [callTailM] at h6
-    msimp at h6
-    simp only [StateT.pure, pure, Except.pure, Except.ok.injEq, Prod.mk.injEq] at h6
-    obtain ⟨hc3, hg6⟩ := h6
-    subst hc3; subst hg6
+    simp only [callTailM] at h9
+    msimp at h9
+    simp only [StateT.pure, pure, Except.pure, Except.ok.injEq, Prod.mk.injEq] at h9
+    obtain ⟨hc3, hg9⟩ := h9
+    subst hc3; subst hg9
     exact ⟨rfl, by simp [CallKind.labels]⟩
   | proc name =>
-    simp only [callTailM] at h6
-    msimp at h6
-    simp only [StateT.pure, pure, Except.pure, Except.ok.injEq, Prod.mk.injEq] at h6
-    obtain ⟨hc3, hg6⟩ := h6
-    subst hc3; subst hg6
+    simp only [callTailM] at h9
+    msimp at h9
+    simp only [StateT.pure, pure, Except.pure, Except.ok.injEq, Prod.mk.injEq] at h9
+    obtain ⟨hc3, hg9⟩ := h9
+    subst hc3; subst hg9
     exact ⟨rfl, by simp [CallKind.labels]⟩
 
 theorem genCallActuals_nil (ctx : Ctx) (gs : GS) : genCallActuals ctx [] gs = .ok ([], gs) := by
@@ -335,7 +361,7 @@ theorem genExpr_eff (ctx : Ctx) (e : AExpr) (reg : Reg) :
     obtain ⟨b1, b2, b3, _, b5⟩ := bumpN_facts (countCalls args) { gs1 with offset := gs.offset }
     obtain ⟨c1', c2', c3', c4'⟩ := ih2 _ _ _ _ _ h2
     subst h4
-    simp only at b1 b2 b3 b5 c1' c2' c3' c4'
+    simp only at a1 a2 a3 a4 b1 b2 b3 b5 c1' c2' c3' c4'
     refine ⟨rfl, ?_, ?_, ?_⟩
     · simp only; omega
     · simp only; omega
